@@ -224,8 +224,35 @@ def leaves(node, env, out, op=None, opname=None):
     out.append(("value", S.norm(node, env)))
 
 
+def inline_helper(e, env):
+    """(helper hir fn, env with the parameters bound to the normalised arguments) when e is a call of an inlinable helper"""
+    e0 = H.strip(e)
+    if H.kind(e0) == "Try":
+        e0 = H.strip(e0["e"])
+    if H.kind(e0) != "Call" or S.INLINE is None:
+        return None
+    hf = S.INLINE(e0.get("def") or "")
+    if hf is None or len(hf.get("params", [])) != len(e0["args"]):
+        return None
+    e2 = S.Env()
+    for p_, a_ in zip(hf["params"], e0["args"]):
+        bn = H.pat_binds(p_)
+        if len(bn) == 1:
+            e2.roles[bn[0]] = S.norm(a_, env)
+    return hf, e2
+
+
 def leaves_in_expr(e, env, out, op, opname):
     """pushes / returns nested inside an initializer block (`let mapped_list = { ...; for .. { push } ; mapped_list }`)"""
+    ih = inline_helper(e, env)
+    if ih is not None:
+        # the loop lives in an extracted helper: its pushes are this copy's element values
+        sub = []
+        leaves(ih[0]["body"], ih[1], sub, None, None)
+        for x in sub:
+            if x[0] in ("push", "loop-over") or (x[0] in ("when", "unless") and x[2][0] == "push"):
+                out.append(x)
+        return
     e = H.strip(e) if H.kind(e) != "Block" else e
     if H.kind(e) == "Block":
         sub = []
